@@ -1200,6 +1200,8 @@ class Program:
         known = load_known_functions()
         self.renames = detect_renames(facts, known, load_known_signatures())
         facts = apply_renames(facts, self.renames)
+        self.field_renames = detect_field_renames(facts, load_known_structs())
+        facts = apply_field_renames(facts, self.field_renames)
         self.facts = facts
         self.meta = facts['meta']
         self.bodies = {}
@@ -1862,6 +1864,69 @@ def apply_renames(facts, ren):
         pe = json.dumps(p2)[1:-1]
         txt = re.sub(re.escape(qe) + r'(?![A-Za-z0-9_])', lambda m, pe=pe: pe, txt)
     return json.loads(txt)
+
+
+def load_known_structs():
+    p = _os.path.join(_os.path.dirname(_os.path.abspath(__file__)), 'known_structs.json')
+    try:
+        with open(p) as f:
+            return json.load(f)
+    except (OSError, ValueError):
+        return {}
+
+
+def detect_field_renames(facts, pinned):
+    """{struct path: {current field name: pinned field name}} for crate structs in which a field kept its type and
+    position but changed its name (a field that merely moved keeps its name and is left alone)"""
+    out = {}
+    for a in facts.get('adts', []):
+        old = pinned.get(a['path'])
+        if not old or a.get('kind') != 'Struct' or len(a['variants']) != 1:
+            continue
+        cur = [(fl['name'], fl['ty']) for fl in a['variants'][0]['fields']]
+        old_names = [n for n, _ in old]
+        cur_names = [n for n, _ in cur]
+        gone = [n for n in old_names if n not in cur_names]
+        new = [n for n in cur_names if n not in old_names]
+        if not gone or len(gone) != len(new):
+            continue
+        m = {}
+        for n in new:
+            i = cur_names.index(n)
+            ty = cur[i][1]
+            # same position, else the unique vanished field of that type
+            if i < len(old) and old[i][0] in gone and old[i][1] == ty:
+                m[n] = old[i][0]
+            else:
+                cands = [g for g in gone if dict(map(tuple, old))[g] == ty and g not in m.values()]
+                if len(cands) == 1:
+                    m[n] = cands[0]
+        if len(m) == len(new) and len(set(m.values())) == len(m):
+            out[a['path']] = m
+    return out
+
+
+def apply_field_renames(facts, fren):
+    if not fren:
+        return facts
+
+    def walk_fix(x):
+        if isinstance(x, dict):
+            if x.get('k') == 'field' and x.get('of') in fren and x.get('name') in fren[x['of']]:
+                x['name'] = fren[x['of']][x['name']]
+            if x.get('k') == 'aggr' and x.get('akind') == 'adt' and x.get('adt') in fren and 'fields' in x:
+                x['fields'] = [fren[x['adt']].get(n, n) for n in x['fields']]
+            for v in x.values():
+                walk_fix(v)
+        elif isinstance(x, list):
+            for v in x:
+                walk_fix(v)
+    walk_fix(facts['bodies'])
+    for a in facts.get('adts', []):
+        if a['path'] in fren:
+            for fl in a['variants'][0]['fields']:
+                fl['name'] = fren[a['path']].get(fl['name'], fl['name'])
+    return facts
 
 
 def _call_target_path(term):
